@@ -861,6 +861,19 @@ func (x *exec) doSelect(s *State, sel *ssa.Select) Value {
 	e := x.e
 	c := e.C
 	n := len(sel.States)
+	if dones := x.waitsFor(s); dones != nil && sel.Blocking {
+		var alts []*Term
+		for _, st := range sel.States {
+			if st.Dir == types.RecvOnly {
+				if ch, ok := x.val(st.Chan, s).(*Term); ok {
+					for _, done := range dones {
+						alts = append(alts, c.Eq(ch, done))
+					}
+				}
+			}
+		}
+		x.oblige("blocking", "select", sel.Pos(), s, c.Or(alts...), "blocking select without a case receiving from the Done channel")
+	}
 	idx := c.Fresh("select", Int)
 	lo := int64(0)
 	if !sel.Blocking {
